@@ -19,7 +19,7 @@ EXPLANATION = (
     "inputs plus the inputs of the substituted values: Subs.__init__ starts from a copy of arg.inputs, deletes every key, and only then "
     "adds the inputs of every value (so f(x=x+1) keeps x). Capture avoidance is decided under C05. NOT decided: the value of a substitution "
     "(renaming onto existing names, diagonals, slices, fusing of chained substitutions)."
-    ' Round 4: R04.4 guards over the pairs (any/all of key membership) are read as quantified statements per branch: handing all pairs to X.eager_subs needs every key in X.fresh, letting an operand pass unsubstituted needs no key among its inputs. R04.5 the Number and Tensor branches of an eager_subs compute the same function of index.data (modulo commutativity). R04.6 a stage of a staged eager_subs whose values may be open terms contains a clash test that depends on its pairs and on the remaining pairs / the term. R04.7 no loop over the pairs removes the current key from a mapping and adds other names to it.'
+    ' Round 4: R04.4 guards over the pairs (any/all of key membership) are read as quantified statements per branch: handing all pairs to X.eager_subs needs every key in X.fresh, letting an operand pass unsubstituted needs no key among its inputs. R04.5 the Number and Tensor branches of an eager_subs compute the same function of index.data (modulo commutativity). R04.6 a stage of a staged eager_subs whose values may be open terms contains a clash test that depends on its pairs and on the remaining pairs / the term. R04.7 no loop over the pairs removes the current key from a mapping and adds other names to it. R04.8 a Slice-valued branch of an eager_subs reads start, stop and step of the slice. R04.9 where the name of a substituted value becomes a key of the inputs of the result, that name is tested against the inputs of the term itself (or a collapsed renaming raises).'
 )
 ASSUMPTIONS = ["binder hygiene (C05)", "substitution collections are recognised by role: a parameter or local named by the Subs constructor field / iterated as (name, value) pairs"]
 RULE_TEXT = "one obligation per loop over substitution pairs, per filter of foreign names, per step of the Subs typing rule"
@@ -136,6 +136,14 @@ def run(prog: Program, col: Collector, tier: str, refs: Optional[Refs] = None, c
     # ---------------------------------------------------------------- R04.7
     col.rule("R04.7", "keys are removed for all pairs before names are added for any pair (no interleaved delete / insert)", floor=1)
     _interleaved_delete_insert(prog, col, refs, cat, colls)
+
+    # ---------------------------------------------------------------- R04.8
+    col.rule("R04.8", "a slice substituted into a term is decomposed completely (start, stop and step)", floor=1)
+    _slice_components(prog, col, refs, cat)
+
+    # ---------------------------------------------------------------- R04.9
+    col.rule("R04.9", "an input is renamed to the name of a substituted value only after that name is tested against the term's own inputs", floor=2)
+    _rename_clash(prog, col, refs, cat, colls)
 
     # ---------------------------------------------------------------- R04.3
     col.rule("R04.3", "Subs declares f's unsubstituted inputs plus the inputs of the substituted values", floor=3)
@@ -525,3 +533,112 @@ def _interleaved_delete_insert(prog: Program, col: Collector, refs: Refs, cat: C
             else:
                 col.ok(construct, "no mapping has the current key removed and other names added in the same pass", f.loc(lp), nontrivial=False)
     col.cur.analysed["loops_checked_for_interleaving"] = n
+
+
+# ---------------------------------------------------------------------- R04.8
+def _slice_components(prog: Program, col: Collector, refs: Refs, cat: Catalogue):
+    """In an eager_subs, a branch for a value that is a Slice and that reads the components of `<value>.slice` computes the
+    composed index set from them; the set depends on start, stop AND step, so a branch that reads only some of them is the
+    composition for other slices than the one given (the usual omission: the inner stop, which makes the result too long)."""
+    n = 0
+    for f in prog.funcs.values():
+        if f.name != "eager_subs" or f.cls is None:
+            continue
+        for node in walk_no_nested(f.node):
+            if not isinstance(node, ast.If):
+                continue
+            t = node.test
+            if not (isinstance(t, ast.Call) and isinstance(t.func, ast.Name) and t.func.id == "isinstance" and len(t.args) == 2 and isinstance(t.args[0], ast.Name)
+                    and (refs.resolve(t.args[1]) if isinstance(t.args[1], (ast.Name, ast.Attribute)) else None) == "funsor.terms.Slice"):
+                continue
+            v = t.args[0].id
+            comps = set()
+            whole = False
+            for st in node.body:
+                for x in ast.walk(st):
+                    if isinstance(x, ast.Attribute) and isinstance(x.value, ast.Attribute) and x.value.attr == "slice" and isinstance(x.value.value, ast.Name) and x.value.value.id == v:
+                        comps.add(x.attr)
+                    if isinstance(x, ast.Attribute) and x.attr == "slice" and isinstance(x.value, ast.Name) and x.value.id == v \
+                            and not isinstance(f.module.parent.get(x), ast.Attribute):
+                        whole = True
+            if not comps or whole:
+                continue
+            n += 1
+            missing = {"start", "stop", "step"} - comps
+            col.check(not missing, f"{f.fq}::components of {v}.slice",
+                      f"the branch for a Slice value reads start, stop and step of `{v}.slice`",
+                      f"the branch for a Slice value reads only {sorted(comps)} of `{v}.slice` ({sorted(missing)} ignored): the composed slice does not depend on it, so e.g. "
+                      "x(i=Slice(j, a, b)) has as many elements as if b were the full length", f.loc(node))
+    col.cur.analysed["slice_branches"] = n
+
+
+# ---------------------------------------------------------------------- R04.9
+def _rename_clash(prog: Program, col: Collector, refs: Refs, cat: Catalogue, colls: Dict[str, Set[str]]):
+    """Substituting a Variable / Slice by *renaming* an input (`k = v.name; inputs[k] = d`, or a rename map) is only the
+    substitution if the new name is not already an input that keeps its name: otherwise two inputs collapse into one
+    (t(i="j") with j an input) or a later pair rewrites the renamed input (t(i="j", j=0)).  A function that uses the name of a
+    substituted value as a key of the result's inputs must therefore test that name against the term's own inputs (membership),
+    or compare the size of the renamed mapping with the original and raise."""
+    n = 0
+    for fq, coll in sorted(colls.items()):
+        f = prog.funcs[fq]
+        if f.cls is None or not f.positional:
+            continue
+        selfn = f.positional[0]
+        # locals bound to `<value>.name` where <value> comes from the pairs (loop / comprehension target or subscript of the collection)
+        valnames = set()
+        for x in ast.walk(f.node):
+            if isinstance(x, (ast.For, ast.comprehension)):
+                it = x.iter
+                base = it.func.value if isinstance(it, ast.Call) and isinstance(it.func, ast.Attribute) and it.func.attr in ("items", "values") else it
+                if isinstance(base, ast.Name) and base.id in coll:
+                    tg = x.target
+                    if isinstance(tg, ast.Tuple) and len(tg.elts) == 2 and isinstance(tg.elts[1], ast.Name):
+                        valnames.add(tg.elts[1].id)
+                    elif isinstance(tg, ast.Name) and isinstance(it, ast.Call) and it.func.attr == "values":
+                        valnames.add(tg.id)
+            if isinstance(x, ast.Assign) and len(x.targets) == 1 and isinstance(x.targets[0], ast.Name) and isinstance(x.value, ast.Subscript) \
+                    and isinstance(x.value.value, ast.Name) and x.value.value.id in coll:
+                valnames.add(x.targets[0].id)
+
+        def is_value_name(e):
+            return isinstance(e, ast.Attribute) and e.attr == "name" and isinstance(e.value, ast.Name) and e.value.id in valnames
+
+        # uses of a value's name as a key of a new inputs mapping
+        renames = []
+        for x in walk_no_nested(f.node):
+            if isinstance(x, ast.Assign) and len(x.targets) == 1 and isinstance(x.targets[0], ast.Name) and is_value_name(x.value):
+                k = x.targets[0].id
+                for y in walk_no_nested(f.node):
+                    if isinstance(y, ast.Assign) and any(isinstance(t, ast.Subscript) and isinstance(t.slice, ast.Name) and t.slice.id == k for t in y.targets):
+                        renames.append(x)
+                        break
+            if isinstance(x, ast.Assign) and any(isinstance(t, ast.Subscript) and is_value_name(t.slice) for t in x.targets):
+                renames.append(x)
+            if isinstance(x, ast.Assign) and isinstance(x.value, ast.DictComp) and is_value_name(x.value.value):
+                # rename = {k: v.name for k, v in subs}; used through rename.get(k, k) as a key
+                m = x.targets[0].id if isinstance(x.targets[0], ast.Name) else None
+                if m and any(isinstance(y, ast.Call) and isinstance(y.func, ast.Attribute) and y.func.attr == "get" and isinstance(y.func.value, ast.Name) and y.func.value.id == m
+                             for y in ast.walk(f.node)):
+                    renames.append(x)
+        if not renames:
+            continue
+        n += 1
+        # clash tests
+        member = [c for c in ast.walk(f.node) if isinstance(c, ast.Compare) and len(c.ops) == 1 and isinstance(c.ops[0], (ast.In, ast.NotIn))
+                  and any(isinstance(y, ast.Attribute) and y.attr == "name" for y in ast.walk(c.left))
+                  and norm(c.comparators[0]) in (f"{selfn}.inputs", f"{selfn}.inputs.keys()")]
+        sizes = []
+        for c in ast.walk(f.node):
+            if isinstance(c, ast.If) and isinstance(c.test, ast.Compare) and len(c.test.ops) == 1 and isinstance(c.test.ops[0], (ast.NotEq, ast.Lt, ast.Gt)):
+                l, r = c.test.left, c.test.comparators[0]
+                if all(isinstance(e, ast.Call) and isinstance(e.func, ast.Name) and e.func.id == "len" for e in (l, r)) \
+                        and f"{selfn}.inputs" in (norm(l.args[0]), norm(r.args[0])) and any(isinstance(y, ast.Raise) for st in c.body for y in ast.walk(st)):
+                    sizes.append(c)
+        construct = f"{f.fq}::{norm(renames[0])[:70]}"
+        col.check(bool(member or sizes), construct,
+                  "the new name is tested against the term's own inputs" if member else "a collapsed renaming (fewer inputs than before) raises",
+                  "the name of a substituted value becomes a key of the result's inputs without ever being compared with the term's own inputs: renaming onto a name the "
+                  "term already uses collapses two inputs into one (t(i='j') with j an input), and a later pair of the same call rewrites the renamed input (t(i='j', j=0))",
+                  f.loc(renames[0]))
+    col.cur.analysed["renaming_sites"] = n
